@@ -73,16 +73,16 @@ Example C11_name_examples :
   program_name (Some [120;47;46;46]%N) = None /\ program_name (Some [100;105;114;47]%N) = Some [100;105;114]%N.
 Proof. repeat split; vm_compute; reflexivity. Qed.
 
-(* "every parse failure goes to stderr": for every definition without `adjacent` whose option levels
-   carry an Info like the default one (`-h/--help`, no version, no fallback_to_usage), on a line that
+(* "every parse failure goes to stderr": for EVERY definition (adjacent groups and adjacent commands included) whose
+   option levels carry an Info like the default one (`-h/--help`, no version, no fallback_to_usage), on a line that
    holds no help flag the outcome is a value or a failure on stderr -- never a document on stdout and
    never completion output; in particular every failure handed outward by a subcommand is one.
    (With fallback_to_usage or a version flag the same holds for lines that hold no such request and
    are not empty; that is decided per run: the oracle demands a request for every stdout outcome.) *)
 Theorem C11_no_request_no_stdout_partial :
   forall feat env o name argv,
-    noadj_o o = true -> dinfo_o o ->
+    dinfo_o o ->
     no_help_token (tokenize (fst (short_tables o)) (snd (short_tables o)) argv) ->
     match run_inner feat env o name argv with OutStdout _ | OutCompletion _ => False | _ => True end.
-Proof. exact run_quiet. Qed.
+Proof. exact run_quiet_every. Qed.
 Print Assumptions C11_no_request_no_stdout_partial.
